@@ -33,8 +33,13 @@ TABLE = {
                             'nouts) and liveness kernels (C07); assumed with a bounded stand-in: end-to-end state completeness under a '
                             'functional backend'),
     'C05': dict(level='other', bounded=[('c05_paths.py', 'well-formedness of every built graph + probe-trace path inclusion')],
-                explanation='bounded stand-in in this revision (GraphBuilder invariant proofs pending): Inv_G mirror, single entry, '
-                            'reachability, stmt_next/stmt_prev agreement checked on every built graph; executed probe traces are CFG paths'),
+                explanation='proved: "successor and predecessor links mirror each other" is an invariant of the edge-creating primitives '
+                            '(_connect_nodes in both of its cases adds exactly the requested edges to next AND prev and removes nothing; '
+                            '_add_new_node / add_ordinary_node / _add_jump_node create an edge-free node, connect every current leaf to it, '
+                            'and set the new leaf set; Node.freeze keeps the members), and a syntactic frame obligation shows that no other '
+                            'code of cfg.py writes the edge sets or creates nodes; assumed: the builder rep invariant at each call '
+                            '(tables owned, pending finally sections recorded); assumed with a bounded stand-in: single entry, reachability, '
+                            'stmt_next/stmt_prev agreement on every built graph, and that executed probe traces are CFG paths'),
     'C09': dict(level='other', bounded=[('c09_interface.py', 'signature/defaults/globals/closure identity and call bindings over all signature shapes')],
                 explanation='proved: _erase_arg_defaults replaces every default / non-None kw_default by the None literal, keeps the '
                             'number of slots and touches nothing else (so the placeholder signature has the same parameters and the real '
